@@ -1246,6 +1246,206 @@ def array_sum_problem(A, B):
     return None
 
 
+# ------------------------------------------------------------------------------------------ histories on array-form objects
+def forms_problems(M, expected, nq):
+    """Consistency of the redundant forms of a MultiformOperator with each other and with the expected content
+    (ordered list of (word, coefficient)).  Returns a list of (attribute, description)."""
+    import numpy as np
+    out = []
+    n = len(expected)
+    words = [w for w, _ in expected]
+    if list(M.terms.keys()) != words or [frac2(v) for v in M.terms.values()] != [frac2(c) for _, c in expected]:
+        out.append(("terms", "terms are %s, expected %s" % (canon_qterms(M.terms), canon_qterms(dict(expected)))))
+    if M.n_terms != n:
+        out.append(("n_terms", "n_terms is %d for %d terms" % (M.n_terms, n)))
+    if M.n_qubits != nq:
+        out.append(("n_qubits", "n_qubits is %s, expected %d" % (M.n_qubits, nq)))
+    want_int = np.zeros((n, nq), dtype=int)
+    for i, w in enumerate(words):
+        for q, p_ in w:
+            want_int[i, q] = "IZXY".index(p_)
+    want_bin = np.concatenate((want_int >> 1, want_int & 1), axis=1).astype(bool)
+    want_swap = np.concatenate((want_int & 1, want_int >> 1), axis=1).astype(bool)
+    for name, got, want in (("integer", M.integer, want_int), ("binary", M.binary, want_bin), ("binary_swap", M.binary_swap, want_swap)):
+        got = np.asarray(got)
+        if got.shape != want.shape or not np.array_equal(got.astype(int), want.astype(int)):
+            out.append((name, "%s has shape %s and rows %s, the current terms need shape %s rows %s" % (
+                name, got.shape, got.astype(int).tolist()[:6], want.shape, want.astype(int).tolist()[:6])))
+    f = np.asarray(M.factors)
+    if f.shape != (n,) or [frac2(x) for x in f] != [frac2(c) for _, c in expected]:
+        out.append(("factors", "factors are %s, expected %s" % (list(f)[:6], [c for _, c in expected][:6])))
+    q = M.qubitoperator
+    if q.terms is M.terms or dict(q.terms) != dict(M.terms):
+        out.append(("qubitoperator", "qubitoperator does not return a copy of the current terms"))
+    return out
+
+
+def run_multiform_histories(ck, n, variants):
+    """Histories of in-place methods on MultiformOperator objects (remove_terms with int / list / array indices,
+    compress after zeroing a coefficient, get_kernel) followed by every observation of the array form, each compared
+    with the symbolic computation on the CURRENT content of the operators."""
+    import numpy as np
+    from tangelo.toolboxes.operators import QubitOperator as TQ
+    from tangelo.toolboxes.operators.multiformoperator import MultiformOperator as MF, do_commute
+    rng = ck.rng
+    ck.stream("multiform-histories", "MultiformOperator objects A (3-7 words) and B (2-5 words) on 2-4 qubits built with from_qubitop / "
+              "from_integerop / from_binaryop, then 1-3 in-place steps on A and sometimes B (remove_terms with an int, a list or an array of "
+              "indices; compress(n_qubits=n) after zeroing a coefficient; get_kernel); after every step all forms (terms, factors, integer, "
+              "binary, binary_swap, n_qubits, qubitoperator) must describe the expected current content; then do_commute(A,B), do_commute(B,A) "
+              "in both modes, A*B, B*A, collapse of the stacked rows and qubitoperator vs the symbolic results on the current content and vs "
+              "the Coq model; non-trivial = a removed word of A anticommutes with a word of B")
+    exprs, impl, meta = [], [], []
+    shim = variants["np_product_missing"]
+
+    def build(terms, nq, how):
+        M0 = MF.from_qubitop(mk_qop(TQ, terms), nq)
+        if how == "qubitop":
+            return M0
+        if how == "integer":
+            return MF.from_integerop(M0.integer.copy(), M0.factors.copy())
+        return MF.from_binaryop(M0.binary.copy(), M0.factors.copy())
+    for ci in range(n):
+        nq = rng.randint(2, 4)
+        pool = all_words(nq)
+        ta = {w: make_scalar(rand_scalar(rng, allow_zero=False)[:4] + ["complex"]) for w in rng.sample(pool, min(len(pool) - 1, rng.randint(3, 7)))}
+        tb = {w: make_scalar(rand_scalar(rng, allow_zero=False)[:4] + ["complex"]) for w in rng.sample(pool, rng.randint(2, 5))}
+        hows = [rng.choice(["qubitop", "qubitop", "integer", "binary"]) for _ in range(2)]
+        objs = {"A": build(ta, nq, hows[0]), "B": build(tb, nq, hows[1])}
+        content = {"A": list(ta.items()), "B": list(tb.items())}
+        removed = []
+        trace = [["build", "A", hows[0]], ["build", "B", hows[1]]]
+        case = {"kind": "mf-history", "n_qubits": nq,
+                "A_terms": [[[list(f) for f in w], [complex(v).real, complex(v).imag]] for w, v in ta.items()],
+                "B_terms": [[[list(f) for f in w], [complex(v).real, complex(v).imag]] for w, v in tb.items()], "trace": trace}
+        bad = False
+        for name in ("A", "B"):
+            for attr, d in forms_problems(objs[name], content[name], nq):
+                ck.violation("C16/MultiformOperator.from_%sop/forms-inconsistent/%s" % ({"qubitop": "qubit", "integer": "integer", "binary": "binary"}[hows["AB".index(name)]], attr),
+                             "%s built with from_%sop: %s" % (name, hows["AB".index(name)], d), case)
+                bad = True
+        for step in range(rng.randint(1, 3)):
+            name = "A" if rng.random() < 0.75 else "B"
+            M, cur = objs[name], content[name]
+            r = rng.random()
+            if r < 0.7 and len(cur) > 1:
+                k = rng.randint(1, min(3, len(cur) - 1))
+                idx = sorted(rng.sample(range(len(cur)), k))
+                form = rng.choice(["int", "list", "array"]) if k == 1 else rng.choice(["list", "array"])
+                arg = idx[0] if form == "int" else (list(idx) if form == "list" else np.array(idx))
+                trace.append(["remove_terms", name, form, idx])
+                method = "remove_terms"
+                removed += [cur[i][0] for i in idx if name == "A"]
+                content[name] = [tc for i, tc in enumerate(cur) if i not in idx]
+                call = lambda: M.remove_terms(arg)  # noqa
+            elif r < 0.88 and len(cur) > 1:
+                i = rng.randrange(len(cur))
+                trace.append(["zero+compress", name, i])
+                method = "compress"
+                if name == "A":
+                    removed.append(cur[i][0])
+                content[name] = [tc for j, tc in enumerate(cur) if j != i]
+
+                def call(M=M, w=cur[i][0]):
+                    M.terms[w] = 0.0
+                    M.compress(n_qubits=nq)
+            else:
+                trace.append(["get_kernel", name])
+                method = "get_kernel"
+                call = lambda: M.get_kernel()  # noqa
+            try:
+                call()
+            except Exception as e:
+                if method == "get_kernel":
+                    # the kernel computation itself (empty kernels raise) belongs to the tapering property C14; here it
+                    # only matters that calling it leaves the operator's forms intact, which is checked below
+                    ck.notes["get_kernel_exceptions_ignored"] = ck.notes.get("get_kernel_exceptions_ignored", 0) + 1
+                else:
+                    ck.violation("C16/MultiformOperator.%s/exception/%s" % (method, type(e).__name__), "%s raised %r after %s" % (method, e, trace), case)
+                    bad = True
+                    break
+            probs = forms_problems(M, content[name], nq)
+            for attr, d in probs:
+                ck.violation("C16/MultiformOperator.%s/forms-inconsistent/%s" % (method, attr),
+                             "after %s on %s (history %s): %s" % (method, name, trace, d), case)
+            other = "B" if name == "A" else "A"
+            oprobs = forms_problems(objs[other], content[other], nq)
+            for attr, d in oprobs:
+                ck.violation("C16/MultiformOperator.%s/other-object-changed/%s" % (method, attr), "history %s: %s" % (trace, d), case)
+            if probs or oprobs:
+                break        # no further in-place step: a later method must not be blamed for this one; observations still follow
+        if bad:
+            continue
+        # ---- observations on the current content
+        A, B = objs["A"], objs["B"]
+        wa, wb = [w for w, _ in content["A"]], [w for w, _ in content["B"]]
+        da, db = dict(content["A"]), dict(content["B"])
+        obs = []
+        for (X, Y, wx, wy, tag) in ((A, B, wa, wb, "A,B"), (B, A, wb, wa, "B,A")):
+            want_terms = [all(ref_words_commute(x, y) for y in wy) for x in wx]
+            try:
+                g_all = bool(do_commute(X, Y))
+                g_terms = [bool(v) for v in do_commute(X, Y, term_resolved=True)]
+            except Exception as e:
+                ck.violation("C16/do_commute/after-in-place-method/exception/%s" % type(e).__name__,
+                             "do_commute(%s) raised %r after history %s" % (tag, e, trace), case)
+                obs.append("Err")
+                continue
+            obs.append(("T" if g_all else "F") + " " + "".join("T" if v else "F" for v in g_terms))
+            if g_terms != want_terms:
+                ck.violation("C16/do_commute/after-in-place-method/term-resolved-wrong",
+                             "history %s on A=%s B=%s: do_commute(%s, term_resolved=True) = %s, the current operators (A=%s, B=%s) give %s" % (
+                                 trace, case_str(ta), case_str(tb), tag, g_terms, canon_qterms(da), canon_qterms(db), want_terms), case)
+            if g_all != all(want_terms):
+                ck.violation("C16/do_commute/after-in-place-method/operator-level-wrong",
+                             "history %s: do_commute(%s) = %s, the current operators (A=%s, B=%s) give %s" % (
+                                 trace, tag, g_all, canon_qterms(da), canon_qterms(db), all(want_terms)), case)
+            rowsX = coq_list([coq_list(["%d%%N" % ("IZXY".index(dict(w).get(q, "I"))) for q in range(nq)]) for w in wx])
+            rowsY = coq_list([coq_list(["%d%%N" % ("IZXY".index(dict(w).get(q, "I"))) for q in range(nq)]) for w in wy])
+            exprs.append("show_bool (%s %s %s) ++ \" \" ++ show_bools (do_commute_terms %s %s)" % (
+                "do_commute_asis" if variants["do_commute"] else "do_commute_repaired", rowsX, rowsY, rowsX, rowsY))
+            impl.append(obs[-1])
+            meta.append(("do_commute(%s)" % tag, case))
+        for (X, Y, dx, dy, tag) in ((A, B, da, db, "A*B"), (B, A, db, da, "B*A")):
+            try:
+                with np_product_shim(shim):
+                    P = X * Y
+                sym = mk_qop(TQ, dx) * mk_qop(TQ, dy)
+                if canon_qterms(P.terms) != canon_qterms(sym.terms):
+                    ck.violation("C16/MultiformOperator.__mul__/after-in-place-method/differs-from-symbolic-product",
+                                 "history %s: %s = %s, symbolic product of the current operators %s" % (
+                                     trace, tag, canon_qterms(P.terms), canon_qterms(sym.terms)), case)
+                for attr, d in forms_problems(P, list(P.terms.items()), nq):
+                    if attr != "terms":
+                        ck.violation("C16/MultiformOperator.__mul__/forms-inconsistent/%s" % attr, "history %s, %s: %s" % (trace, tag, d), case)
+            except Exception as e:
+                ck.violation("C16/MultiformOperator.__mul__/after-in-place-method/exception/%s" % type(e).__name__,
+                             "%s raised %r after history %s" % (tag, e, trace), case)
+        try:
+            u, f = MF.collapse(np.vstack((A.integer, B.integer)), np.concatenate((A.factors, B.factors)))
+            got = {tuple((q, "IZXY"[int(c)]) for q, c in enumerate(row) if c): x for row, x in zip(u, f)}
+            sym = mk_qop(TQ, da) + mk_qop(TQ, db)
+            if canon_qterms(got) != canon_qterms(sym.terms):
+                ck.violation("C16/MultiformOperator.collapse/after-in-place-method/differs-from-symbolic-sum",
+                             "history %s: collapse of the stacked rows = %s, symbolic sum %s" % (trace, canon_qterms(got), canon_qterms(sym.terms)), case)
+        except Exception as e:
+            ck.violation("C16/MultiformOperator.collapse/after-in-place-method/exception/%s" % type(e).__name__,
+                         "collapse raised %r after history %s" % (e, trace), case)
+        nontriv = any(not ref_words_commute(w, y) for w in removed for y in wb)
+        ck.case("multiform-histories", json.dumps([nq, case["A_terms"], case["B_terms"], trace], default=str), nontrivial=nontriv,
+                sample={"n_qubits": nq, "a": case_str(ta), "b": case_str(tb), "trace": json.loads(json.dumps(trace, default=str)), "obs": obs},
+                tags=[t[0] for t in trace[2:]] + ["built:" + h for h in hows])
+    model = ck.coq_eval("mfhist", PREAMBLE, exprs, shard=300)
+    for m, g, (what, case) in zip(model, impl, meta):
+        if m != g and g != "Err":
+            ck.violation("C16/correspondence/multiform/history-%s" % what.split("(")[0],
+                         "%s after history %s: implementation %s, model on the current content %s" % (what, case["trace"], g, m),
+                         dict(case, what=what, impl=g, model=m), found_input=False)
+
+
+def case_str(terms):
+    return canon_qterms(terms)
+
+
 # ------------------------------------------------------------------------------------------ probes
 def probes(ck):
     """Replay the witnesses of the *_refuted theorems on the real code (DESIGN §5.2)."""
@@ -1395,6 +1595,7 @@ def run(ck):
     run_multiform_stream(ck, 150 if quick else 2500, variants)
     run_commute_stream(ck, 250 if quick else 3000, variants)
     run_large_arrays(ck, variants)
+    run_multiform_histories(ck, 200 if quick else 3000, variants)
 
 
 def replay(data):
@@ -1417,6 +1618,58 @@ def replay(data):
         c = _C()
         probes(c)
         return 1 if data.get("signature") in c.vs else 0
+    if r.get("kind") == "mf-history":
+        import numpy as np
+        from tangelo.toolboxes.operators import QubitOperator as TQ
+        from tangelo.toolboxes.operators.multiformoperator import MultiformOperator as MF, do_commute
+        nq = r["n_qubits"]
+        terms = {"A": {tuple((int(q), p_) for q, p_ in w): complex(*v) for w, v in r["A_terms"]},
+                 "B": {tuple((int(q), p_) for q, p_ in w): complex(*v) for w, v in r["B_terms"]}}
+        objs, content, bad = {}, {}, 0
+        for st in r["trace"]:
+            name = st[1]
+            if st[0] == "build":
+                M0 = MF.from_qubitop(mk_qop(TQ, terms[name]), nq)
+                objs[name] = M0 if st[2] == "qubitop" else (MF.from_integerop(M0.integer.copy(), M0.factors.copy()) if st[2] == "integer"
+                                                            else MF.from_binaryop(M0.binary.copy(), M0.factors.copy()))
+                content[name] = list(terms[name].items())
+                continue
+            M, cur = objs[name], content[name]
+            try:
+                if st[0] == "remove_terms":
+                    idx = [int(i) for i in st[3]]
+                    M.remove_terms(idx[0] if st[2] == "int" else (idx if st[2] == "list" else np.array(idx)))
+                    content[name] = [tc for i, tc in enumerate(cur) if i not in idx]
+                elif st[0] == "zero+compress":
+                    M.terms[cur[int(st[2])][0]] = 0.0
+                    M.compress(n_qubits=nq)
+                    content[name] = [tc for j, tc in enumerate(cur) if j != int(st[2])]
+                else:
+                    try:
+                        M.get_kernel()
+                    except (IndexError, ValueError):
+                        pass
+            except Exception as e:
+                print("step %s raised %r" % (st, e))
+                return 1
+            for nm in ("A", "B"):
+                for attr, d in forms_problems(objs[nm], content[nm], nq):
+                    print("after %s: %s.%s inconsistent: %s" % (st, nm, attr, d[:300]))
+                    bad += 1
+        for X, Y, tag in (("A", "B", "A,B"), ("B", "A", "B,A")):
+            wx, wy = [w for w, _ in content[X]], [w for w, _ in content[Y]]
+            want = [all(ref_words_commute(x, y) for y in wy) for x in wx]
+            got = [bool(v) for v in do_commute(objs[X], objs[Y], term_resolved=True)]
+            g_all = bool(do_commute(objs[X], objs[Y]))
+            print("do_commute(%s): term_resolved %s expected %s | operator level %s expected %s" % (tag, got, want, g_all, all(want)))
+            bad += got != want or g_all != all(want)
+            with np_product_shim(not hasattr(np, "product")):
+                P = objs[X] * objs[Y]
+            sym = mk_qop(TQ, dict(content[X])) * mk_qop(TQ, dict(content[Y]))
+            ok = canon_qterms(P.terms) == canon_qterms(sym.terms)
+            print("%s*%s %s the symbolic product of the current operators" % (X, Y, "equals" if ok else "DIFFERS from"))
+            bad += not ok
+        return 1 if bad else 0
     if r.get("kind") == "collapse":
         prob, got, _, _ = check_collapse_case({k: r[k] for k in ("seed", "n_rows", "n_qubits", "dtype", "n_words")})
         print("collapse on %d rows of dtype %s: %s" % (r["n_rows"], r["dtype"], prob or "agrees with the sum over duplicate rows"))
